@@ -30,6 +30,7 @@ def close(a, b, rel):
 
 def run(ctx):
     env = kit.Env(ctx)
+    kit.aliasing_probe(ctx, env.m, "C11")   # the program aliases what it is handed and updates in place
     m, rng, pools, orc = env.m, ctx.rng, env.pools, env.orc
     mon = convmon.ConvertMonitor(env, ctx, key_prefix="C11")
     Identity, One = m.IdentityPrefix, m.One
